@@ -52,6 +52,7 @@ class H(explore.Harness):
         self.back_expected = {}
         self.unreg = {}
         self.drops = 0
+        self.closes = 0
         self.model_subs = set()  # what the caller subscribed to (the property's subject), independent of the library's bookkeeping
         self.offline = False
         self.depth_used = 0
@@ -180,6 +181,8 @@ class H(explore.Harness):
                 continue
             if a.startswith("ev") and self._cur() is None:
                 continue
+            if a == "close" and (self.closes >= 2 or self._cur() is None):
+                continue
             m.append(a)
         return m
 
@@ -206,6 +209,17 @@ class H(explore.Harness):
             self.net.auto = lambda att: ("ok", att["hosts"][0])
             self.loop.run_until_idle()
             for _ in range(60):  # let the back-off timers run until the connector gets through
+                if self.pairing.is_connected or not self.loop.fire_next_timer():
+                    break
+                self.loop.run_until_idle()
+        elif k == "close":
+            # the application closes the pairing's connection (not the pairing): whatever it subscribed to stays its subscription, and the
+            # next use - or a nudge from discovery - brings the connection back with all of it
+            self.closes += 1
+            self._run(self.pairing.close())
+        elif k == "use":
+            self._run(self.pairing.get_characteristics([(1, 9)]))
+            for _ in range(40):
                 if self.pairing.is_connected or not self.loop.fire_next_timer():
                     break
                 self.loop.run_until_idle()
@@ -319,7 +333,7 @@ class H(explore.Harness):
         cur = self._cur()
         return (
             getattr(self, "unsub_cut", False), tuple(sorted(self.pairing.subscriptions)), tuple(sorted(self.model_subs)), self.offline, tuple(sorted(getattr(cur.session, "ev", set()))) if cur else None, tuple(sorted(self.unreg)), self.cut_armed, self.cutoff_happened,
-            self.pairing.supports_subscribe, bool(self.pairing.is_connected), self.drops, tuple(sorted((k, len(v)) for k, v in self.logs.items())), "S" in self.logs,
+            self.pairing.supports_subscribe, bool(self.pairing.is_connected), self.drops, self.closes, tuple(sorted((k, len(v)) for k, v in self.logs.items())), "S" in self.logs,
             _canon.canon(self.pairing, depth=3, skip=("controller", "_accessories_state", "pairing_data", "_pairing_data", "listeners", "availability_listeners", "config_changed_listeners",
                                                      "owner", "_loop", "_connect_lock", "_connector", "description", "c2a_key", "a2c_key", "encryptor", "decryptor", "c2a_counter", "a2c_counter")),
             tuple(sorted(round(h._when - self.loop.time(), 6) for h in self.loop._scheduled if not h._cancelled)), _canon.tasks_sig(self.loop),
@@ -689,6 +703,7 @@ def run(ctx):
     ]
     configs.append((dict(alphabet=ALPH_SELF, max_drops=1), 4 if quick else 5))
     configs.append((dict(alphabet=ALPH_BIG, max_drops=2), 4 if quick else 5))
+    configs.append((dict(alphabet=["sub:A", "sub:B", "unsub:A", "close", "use", "drop", "ev1"], max_drops=1), 5 if quick else 6))
     work = []
     for p, d in configs:
         p = dict(p, seed=ctx.seed)
